@@ -50,6 +50,17 @@ def check_generic_hex(ctx, cfg):
         if p_ is not None and p_[0] == "P" and p_[1][0] == "local":
             ext = a.tenv.size(a.local_ty(p_[1][1]))
         prints.append((w, p_, ext))
+    # H11: the formatter reaches nothing but precision() and the write_str sites judged below - a second output channel (write!/write_fmt with core's
+    # integer formatter, pad, write_char, a helper that is handed `f`) prints characters none of the rules H1-H10 looks at
+    def _is_fmt(v):
+        return isinstance(v, tuple) and v and v[0] == "P" and v[1] == ("arg", 2)
+    sinks = [c for c in a.calls if any(_is_fmt(x) for x in c.args)]
+    other = [c for c in sinks if not (c.fn.endswith("Formatter::<'a>::write_str") or c.fn.endswith("Formatter::<'a>::precision"))]
+    esc = [g for g in a.aggregates if any(_is_fmt(x) for x in g["ops"])]
+    ctx.ob("C14.H11", key + "#sinks", not other and not esc and bool(ws_all),
+           "the formatter is handed only to precision() and to the %d judged write_str site(s)%s" % (
+               len(ws_all), "" if not (other or esc) else "; other receivers: %s" % sorted({c.fn for c in other} | {"captured in %s" % (g["kind"],) for g in esc})),
+           at=(other[0].at if other else b["at"]), cfg=cfg)
     small = [x for x in prints if x[2] is not None and x[2] == N * Poly.const(2) and x[1][3] is not None]
     large = [x for x in prints if x[2] is not None and x[2].is_const() and x[1][3] is not None]
     if len(small) != 1 or not large or len(small) + len(large) != len(prints):
@@ -333,7 +344,10 @@ def check_encoders(ctx, cfg):
             ctx.ob("C14.H6", "hex_encode#simd_case", names == ["hex_encode", "hex_encode_upper"], "faster_hex entry points used: %s (one per case)" % names, at=b["at"], cfg=cfg)
             uu = [c for c in a.calls if c.fn.endswith("unwrap_unchecked")]
             ctx.ob("C14.H5", "hex_encode#unwrap_unchecked", len(uu) == len(fh), "unwrap_unchecked on the encoder result relies on the same capacity precondition (checked at hex_encode's call sites): %d sites" % len(uu), at=b["at"], cfg=cfg)
-    b = ctx.body(cfg, "hex_encode_fallback", "C14.H5")
+    # with faster-hex on, the table encoder is optional (a build that never calls it may cfg it out): nothing refers to it then, nothing to judge
+    b = ctx.db(cfg).get("hex_encode_fallback") if cfg.startswith("F2") else ctx.body(cfg, "hex_encode_fallback", "C14.H5")
+    if b is None and cfg.startswith("F2"):
+        ctx.note("C14.H5/H8 %s: hex_encode_fallback is not compiled in this configuration (every encoder call goes to faster_hex)" % cfg)
     if b is not None:
         a = ctx.analysis(cfg, "hex_encode_fallback")
         un = ub_hints(a)
